@@ -138,13 +138,16 @@ def render_ff(ff, fmt, wd, tag="ff"):
     paths = []
     single = [b for b in ff["blocks"] if names_unique(b)]
     multi = [b for b in ff["blocks"] if not names_unique(b)]
-    if single:
-        p = wd / ("%s_blocks.%s" % (tag, "ff" if fmt == "ff" else "itp"))
-        p.write_text("\n".join(block_text(b, fmt) for b in single))
-        paths.append(p)
+    # polyply .itp files come first: PolyplyParser.finalize turns every section of every block that is already in the force
+    # field into edges, also of blocks read from an earlier .ff file (observation F33); the domain of C14 keeps exclusions /
+    # pairs / virtual-site sections out of the edge-creating ones, so .ff blocks must be read after the .itp files
     if multi:      # atom names repeat across the residues of a multi-residue block: only the index syntax can express it
         p = wd / ("%s_multi.itp" % tag)
         p.write_text("\n".join(block_text(b, "itp") for b in multi))
+        paths.append(p)
+    if single:
+        p = wd / ("%s_blocks.%s" % (tag, "ff" if fmt == "ff" else "itp"))
+        p.write_text("\n".join(block_text(b, fmt) for b in single))
         paths.append(p)
     if ff.get("mods"):
         p = wd / ("%s_mods.ff" % tag)
